@@ -570,3 +570,127 @@ Definition g_diff_sweep (fuel : nat) (source_stream : list ivl) (sub_streams : l
       let out := @nil ivl in
       out)
     (subtractor_iter, current_subtractor) source_stream.
+
+(* calgebra/core.py: _SourceState.advance *)
+Definition g_ss_advance (self : sstate) : sstate * bool :=
+  if (exh self) then
+    (self, false)
+  else
+    match (rest self) with
+    | v_ :: it_ =>
+      let self := (mkS (cur self) it_ (exh self) (lpc self)) in
+      let self := (mkS (Some v_) (rest self) (exh self) (lpc self)) in
+      let self := (mkS (cur self) (rest self) (exh self) None) in
+      (self, true)
+    | [] =>
+      let self := (mkS (cur self) (rest self) true (lpc self)) in
+      (self, true)
+    end.
+
+(* calgebra/core.py: _SourceState.__init__ *)
+Definition g_ss_init (iterator : list ivl) : sstate :=
+  let self := (mkS None iterator false None) in
+  let '(self, m1_) := (g_ss_advance self) in
+  self.
+
+(* calgebra/core.py: _SourceState.advance_if_ends_at *)
+Definition g_ss_advance_if_ends_at (self : sstate) (cutoff : Z) : sstate * bool :=
+  if ((negb (is_none (cur self))) && ((fend (oivld (cur self))) =? cutoff) && (negb (exh self))) then
+    let '(self, m1_) := (g_ss_advance self) in
+    (self, m1_)
+  else
+    (self, false).
+
+(* calgebra/core.py: _SourceState.advance_if_stalled *)
+Definition g_ss_advance_if_stalled (self : sstate) (cutoff : Z) : sstate * bool :=
+  if ((negb (is_none (cur self))) && (negb (exh self)) && (oZ_eqb (lpc self) (Some cutoff)) && (negb ((fend (oivld (cur self))) =? cutoff))) then
+    let '(self, m1_) := (g_ss_advance self) in
+    (self, m1_)
+  else
+    (self, false).
+
+(* calgebra/core.py: _SourceState.was_processed_at *)
+Definition g_ss_was_processed_at (self : sstate) (cutoff : Z) : bool :=
+  (oZ_eqb (lpc self) (Some cutoff)).
+
+(* calgebra/core.py: Intersection._sweep *)
+Definition g_inter_sweep (fuel : nat) (streams : list (list ivl)) (emit_indices : list Z) : res (list ivl) :=
+  let out := @nil ivl in
+  let states := (map (fun stream => (g_ss_init stream)) streams) in
+  if (forallb (fun s => ((exh s) && (is_none (cur s)))) states) then
+    (RDone out)
+  else
+    if ((Z.of_nat (length states)) =? 1) then
+      let state := (py_index (mkS None [] true None) states 0) in
+      run_while fuel
+        (fun '(state, states) => (negb (is_none (cur state))))
+        (fun '(state, states) =>
+          let out := @nil ivl in
+          let out := out ++ [(oivld (cur state))] in
+          let '(state, m1_) := (g_ss_advance state) in
+          let states := (py_set_index states 0 state) in
+          if (exh state) then
+            (out, (state, states), Brk)
+          else
+            (out, (state, states), Cont))
+        (fun '(state, states) =>
+          let out := @nil ivl in
+          out)
+        (state, states)
+    else
+      run_while fuel
+        (fun states => true)
+        (fun states =>
+          let out := @nil ivl in
+          let active := (map (fun s => (oivld (cur s))) (filter (fun s => (negb (is_none (cur s)))) states)) in
+          if ((Z.of_nat (length active)) <? (Z.of_nat (length states))) then
+            (out, states, Ret)
+          else
+            let overlap_start := (py_max (map (fun ivl_ => (fstart ivl_)) active)) in
+            let overlap_end := (py_min (map (fun ivl_ => (fend ivl_)) active)) in
+            if (overlap_start <? overlap_end) then
+              let '(out1_, states) :=
+                sub_for
+                  (fun states idx =>
+                    let out := @nil ivl in
+                    let state := (py_index (mkS None [] true None) states idx) in
+                    if ((is_none (cur state)) || (g_ss_was_processed_at state overlap_end)) then
+                      (out, states, true)
+                    else
+                      let start_val := (if (negb (overlap_start =? NEG_INF)) then (Some overlap_start) else None) in
+                      let end_val := (if (negb (overlap_end =? POS_INF)) then (Some overlap_end) else None) in
+                      let out := out ++ [(set_span (oivld (cur state)) start_val end_val)] in
+                      let state := (mkS (cur state) (rest state) (exh state) (Some overlap_end)) in
+                      let states := (py_set_index states idx state) in
+                      (out, states, true))
+                  states emit_indices in
+              let out := out ++ out1_ in
+              let cutoff := overlap_end in
+              let '(states, advanced) := (any_mut (fun v_ => (g_ss_advance_if_ends_at v_ cutoff)) states) in
+              let '(advanced, states) :=
+                if (negb advanced) then
+                  let '(states, advanced) := (any_mut_at (mkS None [] true None) (fun v_ => (g_ss_advance_if_stalled v_ cutoff)) states emit_indices) in
+                  (advanced, states)
+                else
+                  (advanced, states) in
+              if (negb advanced) then
+                (out, states, Ret)
+              else
+                (out, states, Cont)
+            else
+              let cutoff := overlap_end in
+              let '(states, advanced) := (any_mut (fun v_ => (g_ss_advance_if_ends_at v_ cutoff)) states) in
+              let '(advanced, states) :=
+                if (negb advanced) then
+                  let '(states, advanced) := (any_mut_at (mkS None [] true None) (fun v_ => (g_ss_advance_if_stalled v_ cutoff)) states emit_indices) in
+                  (advanced, states)
+                else
+                  (advanced, states) in
+              if (negb advanced) then
+                (out, states, Ret)
+              else
+                (out, states, Cont))
+        (fun states =>
+          let out := @nil ivl in
+          out)
+        states.
